@@ -280,7 +280,20 @@ impl Gen {
                         }
                     });
                 }
-                if ty != Ty::Text && !c.unique && rng.chance(sw.p_fk as u64, 100) {
+                // a second reference from the same table to the same parent, with the other ON DELETE
+                // action: one DELETE of the parent row then has to honour both
+                let prev_fk: Option<Fk> = cols.iter().rev().find_map(|pc: &ColDef| pc.fk.clone());
+                if let (Some(pf), true) = (&prev_fk, ty != Ty::Text && !c.unique && sw.p_fk > 0 && rng.chance(1, 2)) {
+                    if let Some(pt) = st.tables.get(&pf.table).and_then(|p| p.def.cols.iter().find(|x| x.name == pf.col).map(|x| x.ty)) {
+                        c.ty = pt;
+                        c.check = None;
+                        c.fk = Some(Fk {
+                            table: pf.table.clone(),
+                            col: pf.col.clone(),
+                            on_delete: if pf.on_delete == OnDelete::Cascade { OnDelete::Restrict } else { OnDelete::Cascade },
+                        });
+                    }
+                } else if ty != Ty::Text && !c.unique && rng.chance(sw.p_fk as u64, 100) {
                     // reference an existing table with an integer primary key
                     let parents: Vec<&MTable> = st
                         .tables
